@@ -212,21 +212,3 @@ func Selftest_C18_Vectors() {
 	vOut(err.Error())
 }
 
-func itoa(x int) string {
-	if x == 0 {
-		return "0"
-	}
-	neg := x < 0
-	if neg {
-		x = -x
-	}
-	var b []byte
-	for x > 0 {
-		b = append([]byte{byte('0' + x%10)}, b...)
-		x /= 10
-	}
-	if neg {
-		return "-" + string(b)
-	}
-	return string(b)
-}
